@@ -421,6 +421,14 @@ J gen_tunnel(uint64_t seed, const J &ov)
 		if (ov.getb("retype")) f.set("p_rd_retype", r.chance(0.7) ? 0.05 + r.uniform() * 0.4 : 0.0);
 		f.set("rd_max_delay_us", (long long)(r.chance(0.5) ? r.range(1000, 200000) : r.range(200000, 3000000)));
 		f.set("p_trigger_dup", r.chance(0.6) ? 0.1 + r.uniform() * 0.6 : 0.0);      // repeats aimed at the 20 ms send-real-soon window / held queries
+		// a client that tried raw mode first: the server's raw replies never arrive, so the session runs in DNS mode, and late copies
+		// of the client's raw login datagrams (valid for the whole session: the hash depends on the login challenge only) reach
+		// the server while pings and data queries are waiting there. Direct paths only: behind a relay the raw login comes from
+		// another address than the DNS queries and re-binds the session (findings/r5/C02-finding3, another matter)
+		if (!cfg.has("relay") && !lazyoff && r.chance(0.4)) {
+			J cl2 = cfg["clients"]; cl2.a[0].set("raw", true); cfg.set("clients", cl2);
+			f.set("rawlate", true); f.set("rawlate_min_us", (long long)(3e6 + r.uniform() * 10e6)); f.set("rawlate_max_us", (long long)(15e6 + r.uniform() * 40e6));
+		}
 		cfg.set("faults", f);
 		cfg.set("dur_s", (int)(W + 45));
 		cfg.set("tmax_s", 600);
